@@ -154,8 +154,15 @@ def _gen_tree(rng, malformed):
         adj = rng.choice([0, 0, 1, 5, 10, 50, 100])
         if neg_adj and rng.random() < 0.5:
             adj = -rng.choice([1, 10, 50])
-        return {'res': res, 'rank': rng.choice([None, 100, 100, 100, 99, 50, 10, 0, 110]),
+        node = {'res': res, 'rank': rng.choice([None, 100, 100, 100, 99, 50, 10, 0, 110]),
                 'adj': adj, 'maxu': rng.choice(MAXU), 'apps': apps, 'subs': subs}
+        if rng.random() < 0.3:
+            # the allocation was loaded before with another configuration (a reload of /allocations reuses the
+            # object and calls `update` again): nothing of the earlier configuration may survive
+            node['prev'] = {'res': [rng.choice([0, 1, 5, 50]) for _ in range(3)],
+                            'rank': rng.choice([None, 100, 50, 10]), 'adj': rng.choice([0, 5, 50]),
+                            'maxu': rng.choice(MAXU)}
+        return node
     t = alloc(0)
     if ctr['id'] == 0:
         ctr['id'] = 1
@@ -505,6 +512,9 @@ def _run_queue(case, run, sch, np):
         # as the loader does: get_sub_alloc creates `Allocation()`, load_allocations calls `update`
         # (the constructor's own max_utilization argument is overwritten by its call of `update`)
         a = sch.Allocation(partition='p')
+        if t.get('prev'):
+            pv = t['prev']
+            a.update(list(pv['res']), pv['rank'], pv['adj'], pv['maxu'])
         a.update(list(t['res']), t['rank'], t['adj'], t['maxu'])
         names = set()
         for ad in t['apps']:
